@@ -205,6 +205,9 @@ class CoderState(object):
     def cancel_bitmap(self):
         self.bitmap = None
 
+    def cancel_new_refvals(self):
+        self.new_refvals = {}
+
     def cancel_all_back_references(self):
         self.back_referenced_descriptors = None
         self.bitmap = None
@@ -570,7 +573,7 @@ class Coder(object):
             else:
                 state.nbits_of_new_refval = operand_value
                 if operand_value == 0:
-                    state.new_refvals = {}
+                    state.cancel_new_refvals()
 
         elif operator_code == 204:  # associated field
             if operand_value == 0:
